@@ -458,6 +458,15 @@ fn c19_fleet_broadcast(case: &Case) {
             let r = &out[&name];
             if flaky[n].is_empty() {
                 case.check(r.value == Some(json!({"ok": "bc"})), "wrong-result", || format!("{name}: {:?} {:?}", r.value, r.error));
+            } else if max_attempts >= 2 && matches!(flaky[n][0], Outcome::Refused | Outcome::AcceptedThenClosed | Outcome::Silent) {
+                // one transport failure, then the node is healthy: the broadcast has attempts
+                // left for this node and must come back with its reply
+                case.probe("broadcast_node_recovered_within_attempts");
+                case.check(r.value == Some(json!({"ok": "bc"})), "broadcast-gave-up-early", || {
+                    format!("{name} failed once ({:?}) and was healthy afterwards, max_attempts {max_attempts}, but the broadcast returned {:?} / {:?}; node saw {seen} requests", flaky[n][0], r.value, r.error.as_ref().map(|e| e.to_string()))
+                });
+            } else if flaky[n][0] == Outcome::AppError {
+                case.check(r.value.is_none() && r.error.as_ref().is_some_and(|e| e.to_string().contains("nope")), "reply-not-reported", || format!("{name} answered with an application error but the broadcast returned {:?} / {:?}", r.value, r.error.as_ref().map(|e| e.to_string())));
             }
         } else if !case.check(seen == 0, "broadcast-addressing", || format!("{name} lacks a requested tag but saw {seen} requests")) {
             return;
